@@ -233,6 +233,7 @@ func main() {
 	measureMode := flag.Bool("measure", false, "child mode: run the one call given on stdin and print what it allocated")
 	budget := flag.Int("budget", 0, "time budget in seconds for the generator loops (0 = 240 quick / 600 thorough)")
 	execMode := flag.Bool("exec", false, "child mode: execute the calls given on stdin and print their results")
+	flag.BoolVar(&richErr, "errtext", false, "child modes: the text of a returned error is part of a call's result (C13)")
 	flag.Parse()
 	if *execMode {
 		execChild()
